@@ -59,7 +59,7 @@ func genTokenRace(rt *rapid.T) Plan {
 	add := func(ops ...Op) { p.Ops = append(p.Ops, ops...) }
 	noise := func(max int, late bool) {
 		for i, n := 0, rapid.IntRange(0, max).Draw(rt, "noise"); i < n; i++ {
-			add(genOp(rt, late))
+			add(genOps(rt, late)...)
 		}
 	}
 	for i := 0; i < limit; i++ {
